@@ -4,7 +4,7 @@
 (* BackendHandle are harness observables, ListOK / Dedup / Spawn agent hooks. *)
 EXTENDS TraceCommon, FiniteSets
 
-TIds == FieldSet("Dedup", "id") \cup FieldSet("FakeFetch", "id") \cup FieldSet("BackendHandle", "id") \cup FieldSet("FakePost", "id")
+TIds == FieldSet("Dedup", "id") \cup FieldSet("FakeFetch", "id") \cup FieldSet("BackendHandle", "id") \cup FieldSet("FakePost", "id") \cup FieldSet("FakePostFail", "id")
 
 VARIABLES lists, agent, cur, seen, w, calls, served, l
 
@@ -40,6 +40,10 @@ TFetch    == Is("FakeFetch") /\ (\E k \in 1..Len(w[E.id]) : w[E.id][k] = "fetch"
                /\ Step
 TBackend  == Is("BackendHandle") /\ (\E k \in 1..Len(w[E.id]) : w[E.id][k] = "forward" /\ D!WStep(E.id, k))
                /\ Step
+\* the proxy hung up on an upload attempt: nothing changes yet (up to three attempts); the worker gives up when
+\* the harness reports the last hang-up
+TPostFail == Is("FakePostFail") /\ (IF E.final THEN (\E k \in 1..Len(w[E.id]) : D!WUploadFails(E.id, k)) ELSE Stutter)
+               /\ Step
 TPost     == Is("FakePost") /\ E.ok /\ (\E k \in 1..Len(w[E.id]) : w[E.id][k] = "upload" /\ D!WStep(E.id, k))
                /\ Step
 TOther    == (Is("PollCheck") \/ Is("Healthy") \/ Is("WForward") \/ Is("WServed") \/ Is("WClosed")
@@ -50,9 +54,9 @@ TOther    == (Is("PollCheck") \/ Is("Healthy") \/ Is("WForward") \/ Is("WServed"
                /\ Step
 \* end of a history: everything that was listed has been forwarded exactly once and served once
 TFinal    == Is("Final") /\ Stutter /\ E.agent_alive
-             /\ (\A i \in TIds : Len(w[i]) > 0 => (calls[i] = 1 /\ served[i] = 1))
+             /\ (\A i \in TIds : Len(w[i]) > 0 => (calls[i] = 1 /\ (served[i] = 1 \/ \E k \in 1..Len(w[i]) : w[i][k] = "failed")))
                /\ Step
-TNext == TReset \/ TFakeList \/ TListOK \/ TDedup \/ TSpawn \/ TFetch \/ TBackend \/ TPost \/ TOther \/ TFinal
+TNext == TReset \/ TFakeList \/ TListOK \/ TDedup \/ TSpawn \/ TFetch \/ TBackend \/ TPost \/ TPostFail \/ TOther \/ TFinal
 TSpec == TInit /\ [][TNext]_<<dvars, l>>
 
 AtMostOnce == D!AtMostOnce
